@@ -26,9 +26,9 @@ import (
 
 func init() {
 	chk.Register(&chk.Check{ID: "C04", Run: func(r *chk.Run) { RunTwoStreamsFirst(r); RunScaleRetry(r, "C04") }, Replay: replayScaleE1})
-	chk.Register(&chk.Check{ID: "C07", Run: func(r *chk.Run) { RunTwoStreamsFirst(r); RunScaleRetry(r, "C07") }, Replay: replayScaleE1})
+	chk.Register(&chk.Check{ID: "C07", Run: func(r *chk.Run) { RunTwoStreamsFirst(r); RunContexts(r); RunScaleRetry(r, "C07") }, Replay: replayScaleE1})
 	chk.Register(&chk.Check{ID: "C05", Run: func(r *chk.Run) { RunTwoStreamsFirst(r); RunBacklogTeardown(r) }, Replay: replayScaleE1})
-	chk.Register(&chk.Check{ID: "C06", Run: func(r *chk.Run) { RunTwoStreamsFirst(r); RunSchemaLookupFails(r) }, Replay: replayScaleE1})
+	chk.Register(&chk.Check{ID: "C06", Run: func(r *chk.Run) { RunTwoStreamsFirst(r); RunContexts(r); RunSchemaLookupFails(r) }, Replay: replayScaleE1})
 	chk.Register(&chk.Check{ID: "C08", Run: func(r *chk.Run) { RunTwoStreamsFirst(r); RunScaleKept(r) }, Replay: replayScaleE1})
 }
 
@@ -56,6 +56,13 @@ func replayScaleE1(kind string, input json.RawMessage) (bool, string) {
 		return ReplayPartial(input)
 	case "schema":
 		return ReplaySchema(input)
+	case "ctx":
+		var in CtxInput
+		if err := json.Unmarshal(input, &in); err != nil {
+			return false, err.Error()
+		}
+		why := checkCtx(in)
+		return why != "", why
 	}
 	return false, "unknown replay kind " + kind
 }
@@ -140,9 +147,9 @@ func checkScaleRetry(in ScaleRetryInput) string {
 
 // RunScaleRetry is the scale half of C04 and C07.
 func RunScaleRetry(r *chk.Run, prop string) {
-	n := 20000
+	n := 140000
 	if r.Thorough() {
-		n = 70000
+		n = 300000
 	}
 	h := injHistoryOf(InjInput{BigN: n})
 	served, _ := h.Serve(h.Files[0].Name, 4)
@@ -154,7 +161,7 @@ func RunScaleRetry(r *chk.Run, prop string) {
 	}
 	first := xid - n // the first rows event of the big transaction
 	var ins []ScaleRetryInput
-	for _, k := range []int{1, 1000, 1025, 4097, 4600, 8193, 16385, n - 1} {
+	for _, k := range []int{1, 1000, 1025, 4097, 4600, 8193, 16385, 65537, 131073, n - 1} {
 		if k < n {
 			ins = append(ins, ScaleRetryInput{N: n, At: first + k, Prop: prop})
 		}
@@ -166,6 +173,9 @@ func RunScaleRetry(r *chk.Run, prop string) {
 		if r.Expired() {
 			r.SetExhaustive(false)
 			return
+		}
+		if r.Violated() {
+			break
 		}
 		in := in
 		cnt++
@@ -275,6 +285,9 @@ func RunBacklogTeardown(r *chk.Run) {
 				r.SetExhaustive(false)
 				return
 			}
+			if r.Violated() {
+				break // one counterexample is enough: a stream that does not end costs a minute per execution
+			}
 			in := BacklogInput{N: n, FailAt: at}
 			cnt++
 			if why := checkBacklog(in); why != "" {
@@ -340,4 +353,84 @@ func sizedRows(cfg ref.Cfg, ts uint32, t *ref.Table, i, size int) *ref.AEvent {
 		size = over
 	}
 	return mk(size - over)
+}
+
+// ---- C06 / C07: the caller's context carries a deadline ---------------------------------
+
+// CtxInput: one execution under a context with a deadline.
+type CtxInput struct {
+	Case string  `json:"case"` // "far-deadline" | "error-after-deadline"
+	Cfg  ref.Cfg `json:"cfg"`
+}
+
+func checkCtx(in CtxInput) string {
+	g := &Gen{Cfg: in.Cfg}
+	h := g.Build([]string{UTxXID, UDDL, UTx2})
+	start := ref.Position{File: h.Files[0].Name, Pos: 4}
+	served, _ := h.Serve(start.File, 4)
+	exp, _ := ref.Expect(served, start)
+	switch in.Case {
+	case "far-deadline":
+		// a bounded stream is still a blocking dump: the request is the same, so is what is delivered
+		out := Run(h, Opts{Start: start, ServerID: 77, LockStep: true, Deadline: time.Hour})
+		if out.Hung {
+			return "HUNG"
+		}
+		if out.StreamPanic[0] != "" {
+			return "panic in Stream: " + firstLine(out.StreamPanic[0])
+		}
+		d := out.DumpOf(0)
+		if d == nil {
+			return "no dump request"
+		}
+		if d.Flags != 0 {
+			return fmt.Sprintf("the caller's context has a deadline (an hour ahead): the dump request carries flags %#x, a blocking dump has 0", d.Flags)
+		}
+		if d.File != start.File || uint64(d.Pos) != start.Pos || d.ServerID != 77 {
+			return fmt.Sprintf("the caller's context has a deadline: dump request %s", d)
+		}
+		if out.StreamErr[0] != nil {
+			return "Stream failed on a well-formed binlog: " + clip(out.StreamErr[0].Error(), 200)
+		}
+		return hx.CompareAll(exp, out.Snaps())
+	case "error-after-deadline":
+		// the master ends the dump with an ERR packet; the caller reads Error() only
+		// after the deadline of its context has passed: the reason must still be there
+		spec := ref.ErrSpec{Code: 1236, State: "HY000", Message: "binary log purged while the replica was away"}
+		out := Run(h, Opts{Start: start, ServerID: 77, LockStep: true, Deadline: 1500 * time.Millisecond, ErrorAfterDeadline: true,
+			Plans: []simmaster.Plan{{At: 6, Kind: "err", Err: spec, Final: "eof"}}})
+		if out.Hung {
+			return "HUNG"
+		}
+		if out.StreamPanic[0] != "" {
+			return "panic in Stream: " + firstLine(out.StreamPanic[0])
+		}
+		if !out.InTime[0] {
+			return "" // the machine was too busy: Stream itself ran into the deadline, nothing to conclude
+		}
+		if out.StreamErr[0] == nil && out.Err1[0] == nil {
+			return "the master ended the dump with ERR 1236 before the deadline of the caller's context; Stream returned nil and Error(), asked after the deadline had passed, returned nil as well: the reason is lost"
+		}
+		if out.Err1[0] != nil && !strings.Contains(out.Err1[0].Error(), spec.Message) {
+			return fmt.Sprintf("Error() = %q does not carry the master's message", clip(out.Err1[0].Error(), 150))
+		}
+	}
+	return ""
+}
+
+// RunContexts is part of the native halves of C06 and C07.
+func RunContexts(r *chk.Run) {
+	var n int64
+	for _, cfg := range []ref.Cfg{Cfgs()[0], Cfgs()[15]} {
+		for _, c := range []string{"far-deadline", "error-after-deadline"} {
+			in := CtxInput{Case: c, Cfg: cfg}
+			n++
+			if why := checkCtx(in); why != "" && why != "HUNG" {
+				r.Report(chk.Violation{Key: "context:" + c, What: fmt.Sprintf("cfg=%s: %s", CfgName(cfg), why), Kind: "ctx", Replay: in, Recheck: func() string { return checkCtx(in) }})
+			}
+		}
+	}
+	r.Eval(n)
+	r.DistinctN(n)
+	r.Set("context_executions", fmt.Sprintf("%d: the caller's context carries a deadline an hour ahead (same blocking dump request, same deliveries); the master ends the dump with an ERR packet and Error() is read after the 1.5 s deadline of the context has passed (only when Stream had returned before it)", n))
 }
